@@ -17,7 +17,7 @@ def runner_tasks(tier):
     return [{"module": "c12", "task": "density", "kind": "bounded", "clause": "density / natural density by keyword, attribute, tag"},
             {"module": "c12", "task": "replace", "kind": "bounded", "clause": "substitution"},
             {"module": "c12", "task": "volume", "kind": "bounded", "clause": "volume estimates"},
-            {"module": "stateful", "task": "C12", "name": "stateful", "kind": "bounded", "clause": "assignment order density / natural density on one object; single-atom default density in every spelling"}]
+            {"module": "stateful", "task": "C12", "name": "stateful", "kind": "bounded", "clause": "assignment order density / natural density on one object; single-atom default density in every spelling; keyword for every initializer kind; private tables with customised masses"}]
 
 
 REPLAY = {'module': 'c12', 'task': 'replay'}
